@@ -17,7 +17,9 @@ def transports(ck):
     rt = ck.tlc("fanout", "TransportTrace", "TransportTrace.cfg", workers=1, env={"VERIF_TRACE": tr}, label="acceptance of what 9 real clients received (%d records)" % n, timeout=900)
     if rt.distinct != n + 1:
         raise Infra("trace validation consumed %d of %d" % (rt.distinct - 1, n))
-    ck.cov["transport_leg"] = {"rounds": res["rounds"], "items_received": res["items"], "clients": ["RTSP/TCP (leaves)", "RTSP/UDP", "ws-rtsp", "HTTP-FLV", "WSP (cut off in mid stream)", "WSP (late)", "WebSocket-FLV (late)", "RTSP/TCP (late)", "WSP (late, second)"]}
+    if res.get("ws_writes_slowed", 0) < 100:
+        raise Infra("dead driver: hook ws.write fired %d times" % res.get("ws_writes_slowed", 0))
+    ck.cov["transport_leg"] = {"rounds": res["rounds"], "items_received": res["items"], "websocket_writes": res["ws_writes"], "websocket_writes_slowed_300us": res["ws_writes_slowed"], "clients": ["RTSP/TCP (leaves)", "RTSP/UDP", "ws-rtsp", "HTTP-FLV", "WSP (cut off in mid stream)", "WSP (late)", "WebSocket-FLV (late)", "RTSP/TCP (late)", "WSP (late, second)"]}
     ck.cov["traces_validated_against_impl"] += res["rounds"]
     seen = set()
     for b in rt.printed("@BAD"):
